@@ -7,7 +7,8 @@ Polar's snapshot AFTER the pass by the boolean PassConstants.constants_matches (
 to normal form; the appended `c = c` assignments up to order).  The theorem's hypothesis
 constants_ok is evaluated on the same input.  Two seeded witnesses outside the hypothesis
 (re-assignment of a constant inside the initial block) are run against the real Polar and the
-exact reference semantics: the model predicts Polar's wrong values there."""
+exact reference semantics on every run (they were wrong before /repo 5e78f4d: a revert is reported with
+the concrete input)."""
 import json
 from fractions import Fraction
 
@@ -91,8 +92,8 @@ def run_witnesses(ctx):
             rec["status"] = "wrong"
             ctx.violation(sig, {"program_text": text, "goal": g, "n": n, "polar_value": str(polar[n]), "reference_value": str(refv[n]),
                                 "closed_form": gr.get("sols"), "flat_program": r.get("flat_text"),
-                                "violated_hypothesis": "PassConstants.constants_ok (props/C02_Constants.v: "
-                                                       "C02_constants_without_ok_refuted, constants_wit_a_values / _b_values)"},
+                                "superseded_rule": "PassConstants.constants_cur (props/C02_Constants.v: "
+                                                   "C02_constants_old_rule_without_ok_refuted, old_rule_wit_a_values / _b_values)"},
                           f"ConstantsTransformer: {why}: E({g}) = {polar[n]} at n={n} according to Polar, exactly {refv[n]}\n{text}")
         else:
             rec["status"] = "agrees"
@@ -191,9 +192,9 @@ def run_pass(ctx, runs):
         body = HEADER
         for k, c in enumerate(cases[j:j + PER_FILE]):
             body += f"Definition fin{k} : flatprog := {c['fin']}.\nDefinition fout{k} : flatprog := {c['fout']}.\n"
-            body += (f"Eval vm_compute in [constants_matches_gen RCur fin{k} fout{k}; constants_ok_gen RCur fin{k}; "
-                     f"constants_in_model_gen RCur fin{k}; constants_matches_gen RFix fin{k} fout{k}; constants_ok_gen RFix fin{k}; "
-                     f"constants_in_model_gen RFix fin{k}].\n")
+            body += (f"Eval vm_compute in [constants_matches_gen RFix fin{k} fout{k}; constants_ok_gen RFix fin{k}; "
+                     f"constants_in_model_gen RFix fin{k}; wf_flat fin{k}; constants_matches_gen RCur fin{k} fout{k}; "
+                     f"constants_in_model_gen RCur fin{k}].\n")
         files.append((f"pconst_{j // PER_FILE}", body))
     outs = lib.coq_run_many(ctx, files, timeout=300)
     import re
@@ -209,14 +210,16 @@ def run_pass(ctx, runs):
             continue
         for c, l in zip(chunk, lists):
             rows.append((c, [x.strip() == "true" for x in l.split(";")]))
-    # which of the two PROVED rules does the code follow on ALL instances?  RCur = the code as read for this
-    # model; RFix = proposed_fixes/constants_init_reassign.diff (both have their theorem in props/C02_Constants.v)
-    def follows(off):
-        return all(bl[off] or not bl[off + 2] for _, bl in rows)
-    rule, off = ("RCur", 0) if follows(0) or not follows(3) else ("RFix", 3)
-    st["rule_followed_by_the_code"] = rule if follows(off) else "neither (violations below are against RCur)"
+    # the model of the code is rule RFix (/repo 5e78f4d); for attribution also say whether the code behaves like
+    # the superseded rule RCur (i.e. the fix is missing from this tree)
+    rule = "RFix"
+    fix_all = all(bl[0] or not bl[2] for _, bl in rows)
+    cur_all = all(bl[4] or not bl[5] for _, bl in rows)
+    st["rule_followed_by_the_code"] = ("RFix" if fix_all else
+                                       "RCur: the superseded rule, /repo fix 5e78f4d is not in this tree" if cur_all else "neither RFix nor RCur")
     for c, bl6 in rows:
-        bl = bl6[off:off + 3]
+        bl = bl6[0:3]
+        st["wf_flat"] = st.get("wf_flat", 0) + (1 if bl6[3] else 0)
         st["instances"] += 1
         if not bl[2]:
             # a default variable is itself a folded constant: Polar's output is not a flat program of the model
@@ -251,6 +254,7 @@ def run_pass(ctx, runs):
     st["witnesses_outside_hypothesis"] = run_witnesses(ctx)
     ctx.coverage["trusted_base"] += ["harness/pass_constants.py + harness/core.py: conversion of Polar's pass snapshots to Syntax.flatprog "
                                      "(the comparison itself, PassConstants.constants_matches, runs inside Coq)"]
-    ctx.assumptions += ["ConstantsTransformer: C02_constants_preserves needs the boolean hypothesis constants_ok (evaluated on every instance: "
-                        f"{st['hypothesis_constants_ok']}/{st['instances']} true); it excludes re-assignment / use-before-definition of folded "
-                        "constants inside the initial block, where the real pass is wrong (known findings constants-init-reassign:a/b)"]
+    ctx.assumptions += ["ConstantsTransformer: C02_constants_preserves needs only the structural wf_flat (defaults / probability 1 as Polar's "
+                        f"constructors build them; evaluated on every instance: {st.get('wf_flat', 0)}/{st['instances']} true), constants_ok then holds "
+                        f"by construction ({st['hypothesis_constants_ok']} true); the two witnesses of the superseded rule (re-assignment of a constant in "
+                        "the initial block, fixed in /repo 5e78f4d) are re-run against Polar and the exact semantics on every run"]
